@@ -106,6 +106,9 @@ def _forward(stmts: List[ast.stmt], env: Optional[Dict[str, ast.expr]] = None, f
     for st in stmts:
         if isinstance(st, ast.Assign) and len(st.targets) == 1 and isinstance(st.targets[0], ast.Name):
             env[st.targets[0].id] = substitute(st.value, env)
+        elif isinstance(st, ast.AugAssign) and isinstance(st.target, ast.Name):
+            cur = env.get(st.target.id, ast.Name(id=st.target.id, ctx=ast.Load()))
+            env[st.target.id] = ast.BinOp(left=copy.deepcopy(cur), op=st.op, right=substitute(st.value, env))
         else:
             others.append((st, dict(env)))
     return env, others
@@ -255,8 +258,12 @@ def _get_unaligned(chk, folder, ff, f, iff):
         else:
             chk.check(verdict, "R4", f"{site} | sign predicate includes the sign bit alone", f.loc(si_),
                       f"`{src(si_.test)}` is false for the value 1 << (length - 1): the most negative value of the field reads back positive")
-        ext = [n for n in si_.body if isinstance(n, ast.Assign)]
-        ok = len(ext) == 1 and (ff.is_form(ext[0].value, "data | ~((1 << self.length) - 1)") or ff.is_form(ext[0].value, "data - (1 << self.length)"))
+        ext = [n for n in si_.body if isinstance(n, (ast.Assign, ast.AugAssign))]
+        def _ext_ok(n):
+            if isinstance(n, ast.AugAssign) and src(n.target) == "data":
+                return (isinstance(n.op, ast.BitOr) and ff.is_form(n.value, "~((1 << self.length) - 1)")) or (isinstance(n.op, ast.Sub) and ff.is_form(n.value, "1 << self.length"))
+            return isinstance(n, ast.Assign) and (ff.is_form(n.value, "data | ~((1 << self.length) - 1)") or ff.is_form(n.value, "data - (1 << self.length)"))
+        ok = len(ext) == 1 and _ext_ok(ext[0])
         chk.check(ok, "R4", f"{site} | extension fills all higher bits", f.loc(si_), f"{[src(n) for n in si_.body]}")
     packs = [n for st in int_branch for n in ast.walk(st) if isinstance(n, ast.Assign) and src(n.value) == "od_struct.pack(data)"]
     chk.check(len(packs) == 1, "R4", f"{site} | integer result encoded with the object's codec", f.loc(iff), "")
